@@ -251,6 +251,9 @@ def run(ctx):
     # cloning must preserve the package/manifest agreement: a clone that resurrects deleted parts breaks it (shared rule of C10)
     from .c10 import r10f
     r10f(ctx)
+    # the manifest is one of the parsed XML parts: it reaches the package only if Document.save flushes every parsed part (rule shared with C03)
+    from .c03 import r03b
+    r03b(ctx)
 
 
 from ..selftest import Seed, unparse_seed  # noqa: E402
